@@ -417,8 +417,13 @@ def nomutpos(run, vm):
         v = dom._cval(sg, e['c'][1])
         fs = [f[:3] for f in dom.facts_at(sg, e['i'])]
         got.setdefault(v, []).extend(fs)
-    want_pos = any(f[1] == '>=' and f[2] == 'this->m_pPass' for f in got.get(pos, []))
-    want_just = any(f[1] == '>=' and f[2] == 'this->m_jPass' for f in got.get(pos + 1, []))
+    # facts about the pass INDEX (not the loader's own relations between the members): every i >= m_pPass is POSITIONING or later,
+    # so the arms below POSITIONING hold i < m_pPass strictly
+    want_pos = any(f[1] == '>=' and f[2] == 'this->m_pPass' and not f[0].startswith('this->') for f in got.get(pos, []))
+    want_just = any(f[1] == '>=' and f[2] == 'this->m_jPass' and not f[0].startswith('this->') for f in got.get(pos + 1, []))
+    for lower in (pos - 1, pos - 2):
+        if lower in got and not any(f[1] == '<' and f[2] == 'this->m_pPass' and not f[0].startswith('this->') for f in got[lower]):
+            want_pos = False
     got = {k_: [f for f in v_ if 'Pass' in f[2]] for k_, v_ in got.items()}
     if want_pos and want_just:
         run.held('NOMUTPOS', 'pass index -> type', sg.where(), 'i >= m_pPass => POSITIONING, i >= m_jPass => JUSTIFICATION')
